@@ -224,29 +224,37 @@ class _NS:
         self.__dict__.update(kw)
 
 
-@obligation("C16", "ukf_permutation", ensures=["O-C16-perm.posterior"], fns=[UK + "UnscentedKalmanFilter.update", UK + "UnscentedKalmanFilter.forecast"], mode="R",
-            bounded="state dimension 1, two stacked scalar observations, both orders; all values symbolic", timeout_ms=60000,
-            note="processing the same two simultaneous observations (here: of one sensor) in either order gives the same posterior estimate and covariance (exactly, in real arithmetic)")
-def ukf_permutation(vc):
-    from contracts import C06
-    f1, e1 = C06._setup(vc, 1, [1, 1], True)
-    f2, e2 = C06._setup(vc, 1, [1, 1], True)
-    for o in e1["obs"] + e2["obs"]:
-        o.sensor_id = 900   # two simultaneous reports of ONE sensor (e.g. angles and range of a radar) are two observations
-    for f in (f1, f2):
-        px = vc.vec("px", 1, -100, 100)
-        pP, pL = C06._spd(vc, "pP", 1)
-        if vc.symbolic:
-            from pyvc import shims
-            shims.register_cholesky(pP, pL)
-        f.pred_x, f.pred_p = px, pP
-        f.sigma_points = vc.mat("stale_sig", 1, 3, -100, 100)
-        f.sigma_x_res = vc.mat("stale_res", 1, 3, -100, 100)
-    if not vc.symbolic:
-        vc.assume(e1["alpha"] > 0.2)  # native run: tiny alpha means weights ~1/alpha^2 and visible float cancellation ("up to rounding")
-    f1.update(e1["obs"])
-    f2.update(e2["obs"][::-1])
-    vc.ensure("O-C16-perm.posterior", vc.And(vc.eq(f1.est_x, f2.est_x, 1e-4), vc.eq(f1.est_p, f2.est_p, 1e-4)))
+def _ukf_permutation(tag, ids):
+    @obligation("C16", f"ukf_permutation[{tag}]", ensures=[f"O-C16-perm.posterior[{tag}]"], fns=[UK + "UnscentedKalmanFilter.update", UK + "UnscentedKalmanFilter.forecast"], mode="R",
+                bounded="state dimension 1, two stacked scalar observations, both orders; all values symbolic", timeout_ms=60000,
+                note="processing the same two simultaneous observations in either order gives the same posterior estimate and covariance (exactly, in real arithmetic); "
+                     + ("both are reports of ONE sensor (angles and range of a radar are two observations)" if ids[0] == ids[1] else "sensor ids descend along the stack"))
+    def ukf_permutation(vc):
+        from contracts import C06
+        f1, e1 = C06._setup(vc, 1, [1, 1], True)
+        f2, e2 = C06._setup(vc, 1, [1, 1], True)
+        for e_ in (e1, e2):
+            for o, sid in zip(e_["obs"], ids):
+                o.sensor_id = sid
+        for f in (f1, f2):
+            px = vc.vec("px", 1, -100, 100)
+            pP, pL = C06._spd(vc, "pP", 1)
+            if vc.symbolic:
+                from pyvc import shims
+                shims.register_cholesky(pP, pL)
+            f.pred_x, f.pred_p = px, pP
+            f.sigma_points = vc.mat("stale_sig", 1, 3, -100, 100)
+            f.sigma_x_res = vc.mat("stale_res", 1, 3, -100, 100)
+        if not vc.symbolic:
+            vc.assume(e1["alpha"] > 0.2)  # native run: tiny alpha means weights ~1/alpha^2 and visible float cancellation ("up to rounding")
+        f1.update(e1["obs"])
+        f2.update(e2["obs"][::-1])
+        vc.ensure(f"O-C16-perm.posterior[{tag}]", vc.And(vc.eq(f1.est_x, f2.est_x, 1e-4), vc.eq(f1.est_p, f2.est_p, 1e-4)))
+    return ukf_permutation
+
+
+_ukf_permutation("one-sensor", (900, 900))
+_ukf_permutation("descending-ids", (900, 899))
 
 
 @obligation("C16", "filter_bounded", ensures=["B-C16-filter.permutation", "B-C16-filter.whole-turns", "B-C16-filter.wrap-point", "B-C16-filter.innovation-range"],
